@@ -69,6 +69,13 @@ def rule_r1(repo, run, types):
                      "size is %r" % (ctype_, unit, SIGNED_TO_UNSIGNED[unit]), types.loc(name))
         else:
             run.ok(R, construct + ":signedness")
+        # ... and on the way back: a constructor that takes a signed long cannot carry the upper half of an unsigned type
+        # that is as wide as long (or wider)
+        ctor = str(t.get("PY_ctor") or "")
+        if unsigned and size is not None and size >= interop.C_SIZE.get("long", 8):
+            run.check(R, "typemap[%s].PY_ctor:signedness" % name, not re.search(r"\bPy(Int|Long)_FromLong\b", ctor),
+                      "the result object of the unsigned type %s (%d bytes) is made with `%s`, which takes a signed long: values "
+                      "above LONG_MAX come back negative" % (ctype_, size, ctor.split("(")[0]), types.loc(name))
     run.floor(R, "typemaps with a PyArg_Parse unit", n, 20)
 
 
